@@ -1,10 +1,134 @@
 import HvsrVerif.Drv.Loop
-/-! driver commands of C20 (stateless: one request line in, one answer line out) -/
+import HvsrVerif.Drv.HV
+import HvsrVerif.Model.Plots
+/-! driver commands of C20 (stateless: one request line in, one answer line out)
+
+object encodings on a request line
+* traditional: `freq* rows** (unset | lo hi) peakfrq?* peakamp?* vwin* vpeak*`
+* azimuthal:   `naz trad^naz azimuths*`
+* diffuse:     `freq* amp*`
+* panel options: `dmc dfn b b b b b b b` (valid, invalid, mean, freqstd, peakmean, peakvalid, peakinvalid)
+
+an artist is printed as `style nx x?* ny y?*`, a list of artists as `k artist^k`.
+-/
 namespace HV.Drv
 open HV.Proto
 
+def pRangeOpt : P (Option (Range Float)) := do
+  match (← peek?) with
+  | some "unset" => let _ ← tok; pure none
+  | _ => let r ← pRange; pure (some r)
+
+def pTradObj : P (HvTrad Float) := do
+  let f ← vec; let rows ← mat
+  let r ← pRangeOpt
+  let pf ← optVec; let pa ← optVec
+  let vw ← boolVec; let vp ← boolVec
+  let peaks := List.zipWith (fun (f a : Option Float) => match f, a with
+    | some f, some a => some (f, a)
+    | _, _ => none) pf pa
+  pure { freq := f, rows := rows, range := r, peaks := peaks, vWin := vw, vPeak := vp }
+
+def pAzObj : P (HvAz Float) := do
+  let n ← nat
+  let hs ← rep n pTradObj
+  let az ← vec
+  pure { hvsrs := hs, azimuths := az }
+
+def pOpts : P PanelOpts := do
+  let dmc ← pDist; let dfn ← pDist
+  let a ← bool; let b ← bool; let c ← bool; let d ← bool; let e ← bool; let f ← bool; let g ← bool
+  pure { dMc := dmc, dFn := dfn, validCurves := a, invalidCurves := b, meanCurve := c, freqStd := d,
+         peakMean := e, peakValid := f, peakInvalid := g }
+
+def fLine (l : Line Float) : String := s!"{l.style.name} {fOVec l.x} {fOVec l.y}"
+def fLines (ls : List (Line Float)) : String := " ".intercalate (toString ls.length :: ls.map fLine)
+def fELines (r : Except String (List (Line Float))) : String :=
+  match r with
+  | .ok ls => "ok " ++ fLines ls
+  | .error e => "err " ++ e
+
+def fRows (rows : List (List (Option Float))) : String :=
+  " ".intercalate (toString rows.length :: rows.map fOVec)
+
+/-- `c20.panel (T trad | A az | D freq amp) opts` -/
+def c20Panel : P String := do
+  match (← tok) with
+  | "T" => let s ← pTradObj; let o ← pOpts; pure (fELines (plotSinglePanel o s).2)
+  | "A" => let s ← pAzObj; let o ← pOpts; pure (fELines (plotSinglePanelAz o s).2)
+  | "D" => let f ← vec; let a ← vec; let o ← pOpts; pure (fELines (panelLinesDiffuse o f a))
+  | k => throw ("kind:" ++ k)
+
+/-- a panel that raises without touching the object (the injected failure of the harness) -/
+def raisingPanel : Panel Float (List (Line Float)) := fun s => (s, .error "injected")
+
+/-- `c20.prepost trad dmc dfn inject` (inject: 0 none, 1 first panel raises, 2 second panel raises, 3 = pinned
+code without `finally` and first panel raises) → `ok <state> <exit> [pre-lines post-lines]` -/
+def c20PrePost : P String := do
+  let s ← pTradObj; let dmc ← pDist; let dfn ← pDist; let inj ← nat
+  let p1 : Panel Float (List (Line Float)) := if inj = 1 ∨ inj = 3 then raisingPanel else plotSinglePanel (PanelOpts.pre dmc dfn)
+  let p2 : Panel Float (List (Line Float)) := if inj = 2 then raisingPanel else plotSinglePanel (PanelOpts.post dmc dfn)
+  let (s', ex) := if inj = 3 then prePostRejectionPinnedWith p1 p2 s else prePostRejectionWith p1 p2 s
+  let tail := match ex with
+    | .normal l1 l2 => s!"normal {fLines l1} {fLines l2}"
+    | .raisedFirst e => "raisedFirst " ++ e
+    | .raisedSecond e => "raisedSecond " ++ e
+  pure s!"ok {fTrad s'} {tail}"
+
+/-- `c20.summary (T trad | A az) dmc dfn` → `ok rows f a`; `c20.summary D freq amp` → `ok f a` -/
+def c20Summary : P String := do
+  let fin := fun (r : Except String (List (List (Option Float)) × (Float × Float))) =>
+    match r with
+    | .ok (rows, (f, a)) => s!"ok {fRows rows} {fF f} {fF a}"
+    | .error e => "err " ++ e
+  match (← tok) with
+  | "T" => let s ← pTradObj; let dmc ← pDist; let dfn ← pDist; pure (fin (summarizeHvsrStatistics dmc dfn s).2)
+  | "A" => let s ← pAzObj; let dmc ← pDist; let dfn ← pDist; pure (fin (summaryTableAz dmc dfn s))
+  | "D" =>
+    let f ← vec; let a ← vec
+    match (diffuseStats f a).meanCurvePeak .lognormal with
+    | .ok (pf, pa) => pure s!"ok {fF pf} {fF pa}"
+    | .error e => pure ("err " ++ e)
+  | k => throw ("kind:" ++ k)
+
+def pRec3 : P (Rec3 Float) := do
+  let dt ← flt; let ns ← vec; let ew ← vec; let vt ← vec
+  pure { ns := ns, ew := ew, vt := vt, dt := dt }
+
+/-- `c20.recs normalize hasmask mask* nrec (dt ns* ew* vt*)^nrec` → `ok 3 lines^3` -/
+def c20Recs : P String := do
+  let normalize ← bool; let hasMask ← bool; let mask ← boolVec
+  let n ← nat; let recs ← rep n pRec3
+  match recordingLines (if hasMask then some mask else none) recs normalize with
+  | .ok panels => pure ("ok " ++ " ".intercalate (toString panels.length :: panels.map fLines))
+  | .error e => pure ("err " ++ e)
+
+/-- `c20.contour2d az dmc peaks` → `ok azimuths* nrows row?*… lines` -/
+def c20Contour2d : P String := do
+  let s ← pAzObj; let dmc ← pDist; let pk ← bool
+  match contour2dLines dmc pk s with
+  | .ok ((azs, rows), ls) => pure s!"ok {fVec azs} {fRows rows} {fLines ls}"
+  | .error e => pure ("err " ++ e)
+
+/-- `c20.azsummary az opts peakByAzimuth` → artists of panel (c) -/
+def c20AzSummary : P String := do
+  let s ← pAzObj; let o ← pOpts; let pk ← bool
+  pure (fELines (plotAzimuthalSummary { panel := o, peakByAzimuth := pk } s).2)
+
+/-- `c20.spatial dist mean std` → `ok 2 row row` -/
+def c20Spatial : P String := do
+  let d ← pDist; let m ← flt; let sd ← flt
+  pure ("ok " ++ fRows (spatialRows d m sd))
+
 def opsC20 (op : String) : Option (P String) :=
   match op with
+  | "c20.panel" => some c20Panel
+  | "c20.prepost" => some c20PrePost
+  | "c20.summary" => some c20Summary
+  | "c20.recs" => some c20Recs
+  | "c20.contour2d" => some c20Contour2d
+  | "c20.azsummary" => some c20AzSummary
+  | "c20.spatial" => some c20Spatial
   | _ => none
 
 end HV.Drv
